@@ -17,9 +17,23 @@ pub open spec fn lpv(p: LineParser) -> LpS {
     LpS { title: match p.title { Some(t) => Some(t@), None => None }, cmd: strings_view(p.command@), exit: p.exit_code, exps: p.expectations@,
           in_cmd: p.in_command, multi: p.allow_multiple_commands, start: p.output_start_index, config: p.config, done: tcs_view(p.testcases@) }
 }
+/// configurations are compared by content (the environment map by its view)
+pub open spec fn cfg_same(a: TestCaseConfig, b: TestCaseConfig) -> bool {
+    a.detached == b.detached && a.environment@ =~= b.environment@ && a.keep_crlf == b.keep_crlf && a.output_stream == b.output_stream
+    && a.skip_document_code == b.skip_document_code && a.strip_ansi_escaping == b.strip_ansi_escaping && a.timeout == b.timeout && a.wait == b.wait
+}
+pub open spec fn opt_cfg_same(a: Option<TestCaseConfig>, b: Option<TestCaseConfig>) -> bool {
+    match (a, b) { (Some(x), Some(y)) => cfg_same(x, y), (None, None) => true, _ => false }
+}
+pub open spec fn tcv_same(a: Tcv, b: Tcv) -> bool {
+    a.title == b.title && a.expr == b.expr && a.exps =~= b.exps && a.exit == b.exit && a.line == b.line && cfg_same(a.config, b.config)
+}
+pub open spec fn tcvs_same(a: Seq<Tcv>, b: Seq<Tcv>) -> bool {
+    a.len() == b.len() && forall|i: int| 0 <= i < a.len() ==> tcv_same(#[trigger] a[i], b[i])
+}
 pub open spec fn lps_eq(a: LpS, b: LpS) -> bool {
     a.title == b.title && a.cmd =~= b.cmd && a.exit == b.exit && a.exps =~= b.exps && a.in_cmd == b.in_cmd && a.multi == b.multi
-    && a.start == b.start && a.config == b.config && a.done =~= b.done
+    && a.start == b.start && opt_cfg_same(a.config, b.config) && tcvs_same(a.done, b.done)
 }
 pub open spec fn s_flush(s: LpS) -> LpS {
     LpS { title: None, cmd: Seq::empty(), exit: None, exps: Seq::empty(), start: None, config: None, ..s }
@@ -64,3 +78,53 @@ pub proof fn lemma_markers()
     ensures forall|l: Seq<char>| #![trigger is_prefix_of(dollar(), l)] is_prefix_of(dollar(), l) ==> l.subrange(2, l.len() as int) =~= l.skip(2),
             forall|l: Seq<char>| #![trigger is_prefix_of(gt(), l)] is_prefix_of(gt(), l) ==> l.subrange(2, l.len() as int) =~= l.skip(2),
 {}
+
+// ------------------------------------------------------------------ the Cram document format (C07), line by line
+pub open spec fn hash_comment(l: Seq<char>) -> bool { l.len() > 0 && l[0] == '#' }
+pub open spec fn lp_init(multi: bool) -> LpS {
+    LpS { title: None, cmd: Seq::empty(), exit: None, exps: Seq::empty(), in_cmd: false, multi, start: None, config: None, done: Seq::empty() }
+}
+/// what one line of a `.t` document means: `#…` is a comment; an empty line ends the test case; a line indented by `indent`
+/// belongs to a test body (and the test gets the Cram defaults); any other line ends the test case and is the title for the next
+pub open spec fn cram_step(s: LpS, line: Seq<char>, index: int, indent: Seq<char>, cram_cfg: TestCaseConfig) -> Option<LpS> {
+    if hash_comment(line) { Some(s) }
+    else if line.len() == 0 { if s_has_body(s) { s_end(s, index) } else { Some(s) } }
+    else if is_prefix_of(indent, line) {
+        match s_body(s, line.subrange(indent.len() as int, line.len() as int), index) {
+            None => None, Some(s1) => Some(LpS { config: Some(cram_cfg), ..s1 }) }
+    } else {
+        match s_end(s, index) { None => None, Some(s1) => Some(LpS { title: Some(line), ..s1 }) }
+    }
+}
+/// the first k lines
+pub open spec fn cram_fold(ls: Seq<Seq<char>>, k: int, indent: Seq<char>, cram_cfg: TestCaseConfig) -> Option<LpS> decreases k {
+    if k <= 0 { Some(lp_init(true)) }
+    else { match cram_fold(ls, k - 1, indent, cram_cfg) { None => None, Some(s) => cram_step(s, ls[k - 1], k - 1, indent, cram_cfg) } }
+}
+/// the whole document: the test cases, or None (= error)
+pub open spec fn cram_doc(ls: Seq<Seq<char>>, indent: Seq<char>, cram_cfg: TestCaseConfig) -> Option<Seq<Tcv>> {
+    match cram_fold(ls, ls.len() as int, indent, cram_cfg) {
+        None => None,
+        Some(s) => if s_has_body(s) { match s_end(LpS { config: Some(cram_cfg), ..s }, ls.len() as int) { None => None, Some(s1) => Some(s1.done) } } else { Some(s.done) },
+    }
+}
+/// an error in a prefix is an error of the document
+pub proof fn lemma_fold_error(ls: Seq<Seq<char>>, k: int, n: int, indent: Seq<char>, c: TestCaseConfig)
+    requires 0 <= k <= n, cram_fold(ls, k, indent, c) is None,
+    ensures cram_fold(ls, n, indent, c) is None,
+    decreases n - k
+{
+    if k < n { lemma_fold_error(ls, k, n - 1, indent, c); }
+}
+pub open spec fn cram_config_ok(c: TestCaseConfig) -> bool {
+    c.output_stream == Some(OutputStreamControl::Combined) && c.keep_crlf == Some(true) && c.skip_document_code == Some(80i32)
+    && c.detached is None && c.environment@.dom() =~= Set::<String>::empty() && c.strip_ansi_escaping is None && c.timeout is None && c.wait is None
+}
+pub open spec fn spaces(n: nat) -> Seq<char> { Seq::new(n, |i: int| ' ') }
+/// the Cram defaults, key by key: combined output, CRLF kept, skip code 80, everything else unset
+pub proof fn lemma_fold_error_from(ls: Seq<Seq<char>>, k: int, indent: Seq<char>, c: TestCaseConfig)
+    requires 0 <= k <= ls.len(),
+    ensures cram_fold(ls, k, indent, c) is None ==> cram_fold(ls, ls.len() as int, indent, c) is None,
+{
+    if cram_fold(ls, k, indent, c) is None { lemma_fold_error(ls, k, ls.len() as int, indent, c); }
+}
